@@ -1,6 +1,7 @@
 From Coq Require Import ZArith List.
 From Cspuz Require Import Lib.PyErr Core.Expr Core.Program Backend.Z3Call Gen.Z3Table Backend.Z3 Backend.Z3Oracle
-  Backend.Z3Proofs Backend.Z3ConstsProofs Backend.Z3SolveProofs Backend.Z3OracleProofs.
+  Backend.Z3Proofs Backend.Z3ConstsProofs Backend.Z3SolveProofs Backend.Z3OracleProofs
+  Backend.Z3Check Gen.Z3SolveTable Backend.Z3Verdict Backend.Z3VerdictProofs.
 
 (* every well-typed tree (bool- or int-valued, any nesting, n-ary forms, Python literals as
    operands, *_CONSTANT nodes, constant-only alldifferent) converts without an exception and
@@ -41,3 +42,29 @@ Print Assumptions session_correct.
 Theorem oracle_hypotheses_satisfiable : oracle_sound_on bf_oracle /\ oracle_complete_on bf_oracle.
 Proof. exact (conj bf_oracle_sound bf_oracle_complete). Qed.
 Print Assumptions oracle_hypotheses_satisfiable.
+
+(* z3 may answer "unknown" (time / resource limit set on the solver or globally): whatever it
+   does then, a find_answer that returns has the right verdict and leaves a genuine model --
+   with the verdict test of Z3Backend.solve as read from the source on this run
+   (Gen/Z3SolveTable.v).  Nothing is assumed about the unknown answers. *)
+Theorem find_answer_never_wrong : forall o3, verdict_sound_on o3 ->
+  forall st, wf_state st -> forall r, find_answer3 o3 st = Ok r ->
+    (r <> None <-> satisfiable no_graph st) /\
+    (forall s, r = Some s -> model_of no_graph (env_of_sol s) st /\ sol_typed (vars st) s).
+Proof. exact find_answer3_never_wrong. Qed.
+Print Assumptions find_answer_never_wrong.
+
+(* and it does return when the solver answers every bounded query *)
+Theorem find_answer_decides : forall o3, verdict_sound_on o3 -> answers_bounded o3 ->
+  forall st, wf_state st ->
+  exists r, find_answer3 o3 st = Ok r /\
+    (r <> None <-> satisfiable no_graph st) /\
+    (forall s, r = Some s -> model_of no_graph (env_of_sol s) st /\ sol_typed (vars st) s).
+Proof. exact find_answer3_decides. Qed.
+Print Assumptions find_answer_decides.
+
+(* these hypotheses are satisfiable too *)
+Theorem verdict_hypotheses_satisfiable :
+  verdict_sound_on (lift_oracle bf_oracle) /\ answers_bounded (lift_oracle bf_oracle) /\ verdict_sound_on gives_up.
+Proof. exact (conj lift_bf_sound (conj lift_bf_answers gives_up_sound)). Qed.
+Print Assumptions verdict_hypotheses_satisfiable.
